@@ -9,6 +9,7 @@ RULE = ('one record per (scalar, u) through curve25519 / curve25519_base / x2551
         'distinct = (entry point, scalar class, u class)')
 ASSUMPTIONS = ['bulk phase: the force-32bits backend serves as a second implementation for locating rare disagreements; a disagreement is reported only when the Python model shows the default build wrong, and sampled outputs are always checked against the Python model', 'Python-int Montgomery ladder pinned by RFC 7748 5.2 vectors']
 FLOORS = {'evaluations': 1000, 'distinct': 600}
+EXTRA_CFGS = ['f32']   # the directed workload is also executed by the force-32bits build (fe32 decoding / ladder are anchors of this property); tokens must equal the default build's, which the model has checked
 THOROUGH_ROUNDS = 8   # thorough tier: generator passes with derived seeds (runner.gen_rounds)
 # bulk phase (cxv/bulk.py): (kind, calls, block); second implementation = force-32bits backend, the Python model judges every disagreement and the samples
 BULK = {'quick': [('x25519', 1 << 16, 1024), ('x25519_base', 1 << 14, 1024)], 'thorough': [('x25519', 1 << 24, 4096), ('x25519_base', 1 << 22, 4096)]}
